@@ -12,6 +12,7 @@ import Yae.Driver.Parse
 import Yae.Driver.Conv
 import Yae.Driver.Sql
 import Yae.Driver.Debug
+import Yae.Driver.ValRel
 namespace Yae.Driver
 open Yae SExp
 
@@ -43,6 +44,7 @@ def handle (req : SExp) : SExp :=
     (handleSql req).getD (.atom "bad-request")
   | .list (.atom "debug.run" :: _) | .list (.atom "debug.rec" :: _) | .list (.atom "debug.render" :: _) =>
     (handleDebug req).getD (.atom "bad-request")
+  | .list (.atom "valrel" :: _) => (handleValRel req).getD (.atom "bad-request")
   | .list (.atom "vmcode" :: _) => (handleVm req).getD (.atom "bad-request")
   | .list (.atom "vmrun" :: _) => (handleVm req).getD (.atom "bad-request")
   | .list (.atom "verify" :: _) => (handleVm req).getD (.atom "bad-request")
